@@ -27,7 +27,7 @@ var authPays = map[string]string{
 	"b64_U_P": b64(authU + ":" + authP), "b64_U_wrong": b64(authU + ":nope"), "b64_wrong_P": b64("root:" + authP),
 	"b64_U_empty": b64(authU + ":"), "b64_empty_P": b64(":" + authP), "b64_U_Pprefix": b64(authU + ":" + authP[:3]),
 	"b64_U_Psuffix": b64(authU + ":" + authP + "x"), "b64_nocolon": b64(authU + authP), "b64_U_T": b64(authU + ":" + authT),
-	"b64_U_P_pad": strings.TrimRight(b64(authU+":"+authP), "=") + "=x",
+	"b64_U_P_pad":     strings.TrimRight(b64(authU+":"+authP), "=") + "=x",
 	"b64_other_empty": b64("root:"), "b64_empty_empty": b64(":"), "b64_other_wrong": b64("root:nope"),
 	"b64_Ucase_P": b64(strings.ToUpper(authU) + ":" + authP), "b64_Upre_P": b64(authU[:4] + ":" + authP),
 	"badb64": "!!!notbase64", "T": authT, "Twrong": "tok-000000", "Tprefix": authT[:5], "Tsuffix": authT + "x",
